@@ -35,7 +35,12 @@ META = {
                   "link) incl. every ordered pair of spellings of one file, changes of directory and a re-pointed link. get/tidy: "
                   "theorem command_loses_nothing; ~350 in-process runs of the two commands (every command line of a 50-entry "
                   "catalogue x network up/down x layouts, special and random projects): the file afterwards loads as the "
-                  "configuration before with the requirements resolution yields, or unchanged when the command failed.",
+                  "configuration before with the requirements resolution yields, or unchanged when the command failed. "
+                  "Size: the statement bounds neither counts, nor string lengths, nor the size of dawn.toml; ~1400 configurations of 12 "
+                  "shapes (many requirements, many patterns = one long line, one long string in each position) with the file exactly "
+                  "T-1, T, T+1 bytes / n = T-1, T, T+1 entries or bytes for every power of two up to 1 MiB (4 MiB thorough) and of ten, "
+                  "and byte T of the file at every offset of a requirement line (T = 512, 4096, 65536); oracle: round trip, second "
+                  "write, one requirement added / half removed in place; example whole_file_is_needed.",
     "level_note": "Trusted: Coq kernel. go-toml v2 (encoder as called by dawn; decoder on the grammar the writer emits), "
                   "golang.org/x/mod/semver and path.Clean are third-party: modelled, validated by the correspondence only. "
                   "The model decoder covers only documents the writer produces; hand-edited dawn.toml files are out of scope. "
@@ -105,16 +110,25 @@ def run(ctx):
                # rewriting in place: random base configurations for the previous-state family, get/tidy histories
                "VERIF_NBASE": "8" if ctx.quick() else "30", "VERIF_NCHAIN": "40" if ctx.quick() else "200",
                # one process, several files and spellings: random sessions on top of the enumerated ones
-               "VERIF_NSESSION": "60" if ctx.quick() else "400"}
+               "VERIF_NSESSION": "60" if ctx.quick() else "400",
+               # the size of a configuration (zz_verif_c19_size_test.go, same test binary): file sizes / entry counts / string
+               # lengths around every power of two and of ten; the large settings once per thorough run
+               "VERIF_OUT_SIZE": out + ".size"}
+        if not ctx.quick() and k == 0:
+            env.update({"VERIF_SIZE_MAXPOW": "22", "VERIF_SIZE_WIDEPOW": "18", "VERIF_SIZE_CNTPOW": "13", "VERIF_SIZE_REQPOW": "20",
+                        "VERIF_SIZE_ALIGN_ALL": "1", "VERIF_SIZE_NRANDOM": "150"})
+        pdir = os.path.join(HARNESS, "overlay/internal/project")
         rc, o = ctx.go_overlay_test("internal/project",
-                                    {"zz_verif_c19_test.go": os.path.join(HARNESS, "overlay/internal/project/zz_verif_c19_test.go")},
-                                    "^TestVerifC19$", env)
+                                    {"zz_verif_c19_test.go": os.path.join(pdir, "zz_verif_c19_test.go"),
+                                     "zz_verif_c19_size_test.go": os.path.join(pdir, "zz_verif_c19_size_test.go")},
+                                    "^TestVerifC19(Size)?$", env)
         if rc != 0:
             ctx.log(o[-3000:])
             ctx.violation("config harness failed to build or run against /repo (exit %d)" % rc,
                           {"theorem_or_correspondence": "C19 correspondence harness", "output": o[-3000:]}, found_input=False)
             return
         recs += [json.loads(l) for l in open(out)]
+        recs += [json.loads(l) for l in open(out + ".size")]
         # the commands that rewrite dawn.toml (cmd/dawn/get.go, tidy.go), in-process against a simulated network.  The harness
         # imports packages of modules that are already requirements of /repo; a private copy of go.mod/go.sum (-modfile)
         # makes sure that `go` cannot touch /repo's own whatever it decides about direct/indirect requirements.
@@ -146,8 +160,17 @@ def run(ctx):
     nvalid = 0
     stats = {}
     rwstats, notes, cmdstats = {}, [], {}
+    sizestats, size_oracles = {"counts": {}, "max_bytes": 0, "bytes_total": 0, "targets": []}, []
     for r in recs:
-        if r["t"] == "ORACLE":
+        if r["t"] == "ORACLE" and "size" in r:
+            size_oracles.append(r)
+        elif r["t"] == "sizestats":
+            for k, v in r["counts"].items():
+                sizestats["counts"][k] = sizestats["counts"].get(k, 0) + v
+            sizestats["max_bytes"] = max(sizestats["max_bytes"], r["max_bytes"])
+            sizestats["bytes_total"] += r["bytes_total"]
+            sizestats["targets"] = sorted(set(sizestats["targets"]) | set(r["targets"]))
+        elif r["t"] == "ORACLE":
             oracles.append(r)
         elif r["t"] == "semver":
             add("CSemver %s %s" % (hb(r["s"]), cq_bool(r["ok"])), r, "semver:" + ("canonical" if r["ok"] else "rejected"))
@@ -248,11 +271,44 @@ def run(ctx):
         "(network up or down, module cache warm or cold); oracle: the file afterwards loads as the configuration before with "
         "the requirements that mvs.Get/UpgradeAll/Tidy yield for that command line (recomputed), or as the configuration "
         "before when the command failed, and writing what it loads as reproduces its bytes"))
+    ctx.coverage["size_of_the_configuration"] = dict(sizestats, rule=(
+        "the statement bounds neither the number of requirements or ignore patterns, nor the length of a string, nor the size of "
+        "dawn.toml.  12 shapes (many requirements with bare / quoted multi-byte keys, many ignore patterns = one long line, a mixed "
+        "project, one long string in each position: name as ASCII / two-byte characters / escapes, ignore pattern, requirement name bare / "
+        "quoted, path, version), each a function (n, pad) -> configuration; for every target T (powers of two and of ten) and shape: "
+        "the FILE exactly T-1, T, T+1 bytes long (pad sets the byte), n = T-1, T, T+1 entries (up to 2^12; 2^13 thorough) or bytes of "
+        "one string; above 64 KiB four shapes, one size per target (go-toml's decoder is quadratic in the number of keys: requirement "
+        "files stop at 256 KiB in the quick tier, 1 MiB thorough); alignment sweep: byte T of a 1.5 T file at every offset of a "
+        "requirement line, T = 512, 4096, 65536 (every 2^9..2^17 thorough); seeded sizes in between.  Oracle on every case: written, "
+        "loaded back equal, second write identical, then one requirement added in place and half removed in place (get / tidy), "
+        "each loaded back equal.  The cases around 4096 bytes are also CWrite/CLoad cases of the model.  Not covered: files larger "
+        "than max_bytes"))
     ctx.coverage["exhaustive"] = False
     ctx.coverage["correspondence"]["distribution"] = dist
     ctx.add_samples([{"config": show_cfg(r["cfg"]), "bytes": bytes.fromhex(r["bytes"]).decode("utf-8", "backslashreplace")}
                      for r in recs if r["t"] == "cfg" and r["kind"] in ("many-reqs", "all:quotes", "all:astral")][:4])
 
+    # the size family: the failing input is the generator's parameters (shrunk to the smallest failing n) and the file dawn wrote
+    groups = {}
+    for r in size_oracles:
+        groups.setdefault(r["name"], []).append(r)
+    for name, rs in groups.items():
+        r = min(rs, key=lambda x: x["size"]["serialised_bytes"])
+        z = r["size"]
+        ctx.violation("implementation violates C19 oracle %s on a configuration of %d bytes (%d requirements, %d ignore patterns, longest "
+                      "string %d bytes; shape %s, n=%d): %s (%d failing configurations of %d sizes)"
+                      % (name, z["serialised_bytes"], z["requirements"], z["ignore_patterns"], z["longest_string"], z["shape"], z["n"],
+                         r["detail"][:200], len(rs), len(set(x["size"]["serialised_bytes"] for x in rs))),
+                      {"oracle": name, "generator": z, "detail": r["detail"], "found_in": r["from"],
+                       "dawn_toml_written_by_WriteConfigFile": r["text"], "text_is_head_and_tail_only": r["text_truncated"],
+                       "failing_sizes": sorted(set(x["size"]["serialised_bytes"] for x in rs))[:40],
+                       "failing_shapes": sorted(set(x["size"]["shape"] for x in rs)),
+                       "how": "c := the configuration that dawn_toml_written_by_WriteConfigFile serialises (= c19sizeShapes()[shape].build(n, pad) "
+                              "in harness/overlay/internal/project/zz_verif_c19_size_test.go); WriteConfigFile(p, c); LoadConfigFile(p) must "
+                              "give c; WriteConfigFile of what was loaded must give the same bytes; then c plus one requirement "
+                              "written over p and loaded, then c with every second requirement removed written over p and loaded "
+                              "(detail names the step); smallest failing n of the shape found by bisection"},
+                      key=name)
     groups = {}
     for r in oracles:
         groups.setdefault(r["name"], []).append(r)
